@@ -133,6 +133,13 @@ func validRedirectURI(uri string, rootDomains []string) bool {
 	if strings.HasPrefix(redirectURL.Host, "[") {
 		return false
 	}
+	// A host name cannot contain a colon. net/url only requires the part after the LAST colon to be
+	// a valid port, so it accepts "evil.test:app.example.com:8080" and Hostname() then returns
+	// "evil.test:app.example.com", which would pass the suffix test below although every other
+	// reader of that URI takes "evil.test" for the host.
+	if strings.Contains(redirectURL.Hostname(), ":") {
+		return false
+	}
 	for _, domain := range rootDomains {
 		if strings.HasSuffix(redirectURL.Hostname(), domain) || redirectURL.Hostname() == strings.TrimLeft(domain, ".") {
 			return true
